@@ -64,7 +64,12 @@ def run(cmd, cwd=None, env=None, timeout=None, check=True, capture=True):
 def build_driver(workdir, race=False):
     """Builds vdrive from the harness against /repo's current working tree."""
     gosum = os.path.join(HARNESS, "go.sum")
-    shutil.copyfile(os.path.join(REPO, "go.sum"), gosum)
+    want = open(os.path.join(REPO, "go.sum"), "rb").read()
+    if not os.path.exists(gosum) or open(gosum, "rb").read() != want:
+        tmp = "%s.%d.tmp" % (gosum, os.getpid())
+        with open(tmp, "wb") as f:
+            f.write(want)
+        os.replace(tmp, gosum)   # (atomic: checks of several properties may run side by side)
     out = os.path.join(workdir, "vdrive-race" if race else "vdrive")
     cmd = ["go", "build", "-tags", "verif"] + (["-race"] if race else []) + ["-o", out, "./cmd/vdrive"]
     run(cmd, cwd=HARNESS, env=goenv(), timeout=600)
@@ -136,6 +141,8 @@ def run_tlc(d, module, workers=8, timeout=1800, extra=(), simulate=None, heap="1
             heads = " | ".join(sorted(set(re.findall(r"Error: [^\n]*", out)))[:6])
             raise Infra("TLC failed on %s (exit %d) -- model-level failure or tool error, not a verdict on the code: %s\n%s"
                         % (module, p.returncode, heads, out[-6000:]))
+    if m is None and not simulate:
+        raise Infra("TLC printed no state statistics for %s:\n%s" % (module, out[-3000:]))
     gen, dist = (int(m.group(1)), int(m.group(2))) if m else (0, 0)
     return gen, dist, out
 
@@ -192,7 +199,8 @@ def shard_trace(trace_path, d, nshards):
     nlines = 0
     with open(trace_path) as f:
         for line in f:
-            if line.startswith('{"op":{"defdec"') or line.startswith('{"op":{"id"') or '"op":"reset"' in line[:80]:
+            # (a reset line; inside string values a quote is escaped, so this cannot match data)
+            if '"op":"reset"' in line:
                 if cur is None or cur_size >= target:
                     if cur:
                         cur.close()
@@ -237,13 +245,24 @@ def validate_shard(args):
     nl = sum(1 for _ in open(shard))
     if not done or done.get("lines") != nl:
         return {"error": "trace validation did not consume all %d lines of %s (done=%r)\n%s" % (nl, shard, done, out[-3000:])}
+    if done.get("mismatches") != len({(r.get("scen"), r.get("line")) for r in recs}):
+        return {"error": "the validator counted %r mismatching lines but wrote records for %d (%s)"
+                         % (done.get("mismatches"), len({(r.get("scen"), r.get("line")) for r in recs}), shard)}
     shutil.rmtree(sd, ignore_errors=True)
-    return {"recs": recs, "lines": nl, "states": dist}
+    cmp_ = done.get("compared") or {}
+    return {"recs": recs, "lines": nl, "states": dist, "compared": cmp_ if isinstance(cmp_, dict) else {}}
+
+
+# what the validator actually compared, summed over every validation of this process:
+# facet -> number of comparisons; "#reset" scenarios begun; "#skipped" lines not judged (poisoned scenario)
+COMPARED = {}
+LAST_COMPARED = {}
 
 
 def validate(trace_path, d, module="TabularTrace", nshards=None, timeout=1800):
     """Trace validation of a whole trace file, sharded over processes.
     Returns (mismatch records, lines validated)."""
+    LAST_COMPARED.clear()
     size = os.path.getsize(trace_path)
     if nshards is None:
         # at least one shard per core for mid-sized traces, and never more than ~48 MB per shard (a TLC
@@ -263,6 +282,9 @@ def validate(trace_path, d, module="TabularTrace", nshards=None, timeout=1800):
                 raise Infra(r["error"])
             recs += r["recs"]
             total += r["lines"]
+            for k, v in r.get("compared", {}).items():
+                COMPARED[k] = COMPARED.get(k, 0) + v
+                LAST_COMPARED[k] = LAST_COMPARED.get(k, 0) + v
     if total != nlines:
         raise Infra("validated %d of %d trace lines" % (total, nlines))
     if not single:
